@@ -27,6 +27,8 @@ def describe(ops):
     for o in ops:
         if o.startswith("I "):
             out.append("I " + repr(vf.unhex(o[2:]))[1:])
+        elif o.startswith("X "):
+            out.append("X (events injected past the parser, '!ff' in label values = byte 0xff) " + repr(vf.unhex(o[2:]))[1:])
         elif o.startswith("L "):
             out.append("L <config>")
         else:
